@@ -451,6 +451,28 @@ def gen_design(rng, cfg, tier="quick", **kw):
                     q *= len(fb[c]["levels"])
             n = 1 + size * rng.choice([1, 1, 2]) + rng.choice([q, q, q, 1, size - 1])
             return {"factors": ast["factors"], "block": {"kind": "repeat", "block": b, "constraints": [{"id": "rm", "kind": "mintrials", "n": n}]}}
+    if focus == "leftover" and rng.random() < 0.3:
+        # the smallest design with a weighted crossing over a derived factor whose source factor stays outside the crossing:
+        # one factor `item`, one factor `kind` that groups its levels, crossing [kind], and a partial last run (often exactly as
+        # long as the number of kinds).  Few enough sequences to enumerate at 5-7 trials.
+        nl = rng.choice([3, 3, 4])
+        g = rng.choice([2, 2, 3])
+        items = ["i%d" % k for k in range(nl)]
+        cut = sorted(rng.sample(range(1, nl), g - 1))
+        groups = [items[a:b_] for a, b_ in zip([0] + cut, cut + [nl])]
+        item = {"id": "f0", "kind": "basic", "name": "item", "levels": [[x, 1] for x in items]}
+        kind = {"id": "d0", "kind": "derived", "name": "kind", "window": {"kind": "within", "width": 1, "stride": 1, "start": None}, "args": ["f0"],
+                "levels": [{"name": "g%d" % k, "weight": 1, "table": [[x] for x in grp]} for k, grp in enumerate(groups)]}
+        if rng.random() < 0.75:
+            rng.choice(kind["levels"])["weight"] = 2
+        size = sum(l["weight"] for l in kind["levels"])
+        n = size * rng.choice([1, 1, 2]) + rng.choice([g, g, g, 1, size - 1])
+        b = {"kind": "cross", "design": ["f0", "d0"], "crossing": ["d0"], "constraints": [], "rcc": True}
+        mt = {"id": "rm", "kind": "mintrials", "n": n}
+        if rng.random() < 0.4:
+            b["constraints"].append(mt)
+            return {"factors": [item, kind], "block": b}
+        return {"factors": [item, kind], "block": {"kind": "repeat", "block": b, "constraints": [mt]}}
     if focus == "leftover" and rng.random() < 0.6:
         # a Stroop-like block whose trial count leaves a partial last run: MinimumTrials on the block or Repeat around it
         ast = gen_template_design(rng, cfg, tier)
